@@ -13,7 +13,7 @@ use shared::terms::{Term, TriplePattern};
 use shared::triple::Triple;
 use std::collections::{BTreeMap, BTreeSet};
 
-const RULE: &str = "random fact sets (<=10 facts over 2-4 constants, 1-3 predicates) x 1-3 denial constraints (1-3 premises sharing variables; shapes: none/pair/chain/triangle/independent conflicts + unrelated facts) x every goal shape; each case repeated in fresh Reasoners (per-instance hash seeds change the subset search order). Non-trivial = the fact set is inconsistent, has >= 2 maximal repairs and the oracle answer set is compared against a non-empty candidate set; distinct by hash of (facts, constraints, goal).";
+const RULE: &str = "random fact sets (<=10 facts over 2-4 constants, 1-3 predicates) x 1-3 denial constraints (1-3 premises sharing variables; shapes: none/pair/chain/triangle/independent conflicts + unrelated facts) x every goal shape; each case repeated (6x quick, 20x thorough) in fresh Reasoners (per-instance hash seeds change the subset search order). Non-trivial = the fact set is inconsistent, has >= 2 maximal repairs and the oracle answer set is compared against a non-empty candidate set; distinct by hash of (facts, constraints, goal).";
 
 fn term_name(i: u32) -> String {
     format!("t{}", i)
@@ -46,7 +46,7 @@ fn gen_case(r: &mut Rng) -> Case {
     let n_pred = r.range(1, 3);
     let ents: Vec<String> = (0..n_ent as u32).map(term_name).collect();
     let preds: Vec<String> = (0..n_pred as u32).map(|i| format!("p{}", i)).collect();
-    let n_facts = r.range(0, 10);
+    let n_facts = match r.below(10) { 0 => r.range(0, 2), 1 => r.range(9, 10), _ => r.range(3, 8) };
     let mut facts = BTreeSet::new();
     for _ in 0..n_facts {
         facts.insert((r.pick(&ents).clone(), r.pick(&preds).clone(), r.pick(&ents).clone()));
@@ -58,7 +58,7 @@ fn gen_case(r: &mut Rng) -> Case {
         let np = r.range(1, 3);
         let mut prem = vec![];
         for _ in 0..np {
-            prem.push((gen_pt(r, &vars, &ents, 70), PT::C(r.pick(&preds).clone()), gen_pt(r, &vars, &ents, 70)));
+            prem.push((gen_pt(r, &vars, &ents, 85), PT::C(r.pick(&preds).clone()), gen_pt(r, &vars, &ents, 85)));
         }
         constraints.push(prem);
     }
@@ -164,8 +164,8 @@ fn case_json(c: &Case) -> Value {
 }
 
 fn run(ctx: &mut Ctx) {
-    let total = ctx.by_tier(6_000, 400_000);
-    let reps = ctx.by_tier(12, 20);
+    let total = ctx.by_tier(30_000, 1_500_000);
+    let reps = ctx.by_tier(6, 20);
     ctx.phase("repairs", total);
     while let Some(k) = ctx.next_case() {
         let mut r = ctx.rng(k);
